@@ -30,15 +30,23 @@ class ProcStage:
 
     def run(self, lean_exe):
         ok, drv, log = core.build_b3sum()
-        if not ok:
-            return dict(evaluations=0, distinct=set(), hist={}, samples=[],
-                        mismatches=[dict(kind="driver-crash", impl_name="b3sum", ops=[], note="b3sum harness does not build", log_tail=log[-3000:])])
-        exe = os.path.join(os.path.dirname(drv), "b3sum")
-        xof = b3sum_gen.xof_via_driver(drv)
         mism = []
+        cases = self.cases
+        if not ok:
+            # the function-level driver names private functions of main.rs; when only that stopped compiling, go on with the
+            # binary alone (digests from the pure-Python BLAKE3, so the multi-megabyte raw cases are left out)
+            mism.append(dict(kind="driver-crash", impl_name="b3sum", ops=[], note="b3sum harness does not build", log_tail=log[-3000:]))
+            ok2, exe, log2 = core.build_b3sum_binary_only()
+            if not ok2:
+                return dict(evaluations=0, distinct=set(), hist={}, samples=[], mismatches=mism)
+            xof = b3sum_gen.py_xof
+            cases = [c for c in cases if all(p[0] == "lit" or p[4] <= 4096 for p in c["stdout"])]
+        else:
+            exe = os.path.join(os.path.dirname(drv), "b3sum")
+            xof = b3sum_gen.xof_via_driver(drv)
         hist = {}
         distinct = set()
-        for c in self.cases:
+        for c in cases:
             hist[c["kind"]] = hist.get(c["kind"], 0) + 1
             distinct.add(repr((c["argv"], sorted(c["files"].items()), c["stdin"])))
             good, detail = b3sum_gen.run_case(exe, c, xof)
